@@ -5,7 +5,10 @@
 // every other named member type is opaque. The helpers of http/de.rs and http/ser.rs are shims whose contracts name an
 // uninterpreted decoding / encoding function of (request part, wire name, member type).
 #![allow(dead_code, unused, non_camel_case_types, non_snake_case, non_upper_case_globals)]
+#![feature(pattern)]
+#![verifier::allow(undeclared_external_trait)]
 use vstd::prelude::*;
+use core::str::pattern::Pattern;
 
 macro_rules! s3_error {
     ($source:expr, $code:ident) => { crate::error::S3Error::new(crate::error::S3ErrorCode::$code) };
@@ -96,6 +99,19 @@ pub mod dto {
     pub type List<T> = Vec<T>;
     /// std::collections::HashMap, opaque here
     pub struct Map<K, V> { pub opaque: u64, pub _k: core::marker::PhantomData<K>, pub _v: core::marker::PhantomData<V> }
+    impl Map<String, String> {
+        pub uninterp spec fn mview(&self) -> vstd::map::Map<Seq<char>, Seq<char>>;
+        #[verifier::external_body]
+        pub fn insert(&mut self, k: String, v: String) -> (r: Option<String>)
+            ensures final(self).mview() == old(self).mview().insert(k@, v@)
+        { unimplemented!() }
+        #[verifier::external_body]
+        pub fn is_empty(&self) -> (r: bool) ensures r == (self.mview() =~= vstd::map::Map::<Seq<char>, Seq<char>>::empty()) { unimplemented!() }
+    }
+    impl Default for Map<String, String> {
+        #[verifier::external_body]
+        fn default() -> (r: Self) ensures r.mview() == vstd::map::Map::<Seq<char>, Seq<char>>::empty() { unimplemented!() }
+    }
     pub struct Timestamp { pub opaque: u64 }
 //@@ extract T_TimestampFormat file=crates/s3s/src/dto/timestamp.rs item="enum TimestampFormat" rewrites=attr
     pub struct StreamingBlob { pub opaque: u64 }
@@ -146,8 +162,28 @@ pub mod http {
         #[verifier::external_body]
         fn from(s: String) -> (r: Body) ensures r.kind() == BodyKind::Text(s) { unimplemented!() }
     }
-    /// the parsed POST form: its fields (lower-cased names); opaque
+    /// the parsed POST form: its fields (lower-cased names, sorted); the file part has become s3ext.vec_stream by now
     pub struct Multipart { pub opaque: u64 }
+    pub type Fld = (Seq<char>, Seq<char>);
+    impl Multipart {
+        pub uninterp spec fn fview(&self) -> Seq<Fld>;
+        #[verifier::external_body]
+        pub fn fields(&self) -> (r: &[(String, String)])
+            ensures r@.map_values(|p: (String, String)| (p.0@, p.1@)) == self.fview()
+        { unimplemented!() }
+    }
+    /// the x-amz-meta-* fields of a form as a metadata map: name without the prefix -> value; a field named exactly
+    /// `x-amz-meta-` is ignored; of two fields with the same name the later one wins
+    pub open spec fn meta_of(f: Seq<Fld>) -> vstd::map::Map<Seq<char>, Seq<char>>
+        decreases f.len()
+    {
+        if f.len() == 0 { vstd::map::Map::empty() }
+        else {
+            let n = f.last().0;
+            if "x-amz-meta-"@.is_prefix_of(n) && n.len() > "x-amz-meta-"@.len() { meta_of(f.drop_last()).insert(n.skip("x-amz-meta-"@.len() as int), f.last().1) }
+            else { meta_of(f.drop_last()) }
+        }
+    }
     pub struct OrderedQs { pub opaque: u64 }
 //@@ extract T_Request file=crates/s3s/src/http/request.rs item="struct Request" rewrites=attr,pubcrate
 //@@ extract T_S3Extensions file=crates/s3s/src/http/request.rs item="struct S3Extensions" rewrites=attr,pubcrate
@@ -330,9 +366,23 @@ pub mod header {
 //@@ extractall header_consts
 }
 
+/// `str::strip_prefix` over Pattern (trusted; generic result uninterpreted, its meaning for `&str` patterns is an axiom)
+pub uninterp spec fn sp_strip_prefix<P>(s: Seq<char>, p: P) -> Option<Seq<char>>;
+pub assume_specification<'a, P: Pattern>[ str::strip_prefix::<P> ](s: &'a str, p: P) -> (r: Option<&'a str>)
+    ensures
+        r matches Some(t) ==> sp_strip_prefix(s@, p) == Some(t@),
+        r is None ==> sp_strip_prefix(s@, p) is None;
+#[verifier::external_body]
+pub proof fn axiom_strip_prefix_str(s: Seq<char>, p: &str)
+    ensures sp_strip_prefix(s, p) == (if p@.is_prefix_of(s) { Some(s.skip(p@.len() as int)) } else { None::<Seq<char>> })
+{}
+pub assume_specification<T>[ bool::then_some ](b: bool, t: T) -> (r: Option<T>)
+    ensures r == (if b { Some(t) } else { None::<T> });
+
 pub mod ops {
     use vstd::prelude::*;
     use crate::error::*;
+    use crate::{axiom_strip_prefix_str};
     use crate::http;
     use crate::dto::*;
     use crate::header::*;
